@@ -815,11 +815,14 @@ pub fn run_one(prop: &str, args: &ShardArgs, rng: &mut Rng, rep: &mut Report, k:
 		std::fs::create_dir_all(base.join(d)).ok();
 	}
 	let with_faults = prop == "C15" || k % 3 == 0;
-	let scn = match &args.replay {
-		Some(path) => {
-			let v: Value = serde_json::from_str(&std::fs::read_to_string(path).expect("replay file")).expect("replay json");
-			scn_from_json(&v["witness"]["scenario"]).expect("watcher scenario in replay file")
-		}
+	// replay: the recorded watcher scenario; a replay file of another scenario family (the shard is then re-run as a whole)
+	// leaves this family generating as usual
+	let recorded = args.replay.as_ref().and_then(|path| {
+		let v: Value = serde_json::from_str(&std::fs::read_to_string(path).expect("replay file")).expect("replay json");
+		scn_from_json(&v["witness"]["scenario"])
+	});
+	let scn = match recorded {
+		Some(s) => s,
 		None => gen_scn(rng, k, with_faults),
 	};
 	let out = run_scn(&scn, &base);
